@@ -119,8 +119,12 @@ def run(scn, cfg):
     return res
 
 
+PRIOR = ('EnumerateInstances', 'ok')
+
+
 def _run(scn, cfg):
-    op, tname, dev = scn
+    op, tname, dev = scn[:3]
+    prior = len(scn) > 3 and scn[3]      # a successful operation on the same connection first
     tps = R.templates()
     tp = tps[(op, tname)]
     resp = R.apply(dev, tp['bodies'][0], tp['headers'], tps, (op, tname)) if dev else \
@@ -128,7 +132,12 @@ def _run(scn, cfg):
     later = list(tp['bodies'][1:])
     sent, replies, wire = [], [], []
 
+    pending_prior = [tps[PRIOR]] if prior else []
+
     def handler(request):
+        if pending_prior:
+            t0 = pending_prior.pop()
+            return 200, 'OK', dict(t0['headers']), t0['bodies'][0]
         sent.append(transport.request_body(request))
         # what actually goes on the wire: header set and body of every request
         wire.append([sorted((str(k), v.decode('latin-1') if isinstance(v, bytes) else str(v))
@@ -185,6 +194,10 @@ def _run(scn, cfg):
             except ValueError:
                 pass   # a recorder of that class is already attached (documented)
     try:
+        if prior:
+            R._call(conn, PRIOR[0], tps[PRIOR]['args'])
+            if cfg and cfg['stats']:
+                conn.statistics.reset()
         try:
             r = R._call(conn, op, tp['args'])
             outcome = ['ok', _dump_result(r)]
@@ -207,7 +220,13 @@ def _run(scn, cfg):
         # responses that wbem_request() itself rejects (HTTP status, Content-type, transport
         # errors) are not CIM-XML replies: None is accepted there
         rejected_early = outcome[0] != 'ok' and outcome[1] not in ('CIMError', 'CIMXMLParseError', 'XMLParseError')
-        res['raw_reply_ok'] = (raw_rep == last) or (last is None) or (rejected_early and raw_rep is None)
+        # whatever it is, it is something THIS operation received (never a reply of an earlier one)
+        own = [None] + [b for b in replies if b is not None] + \
+            ([resp[3]] if isinstance(resp, tuple) else [])
+        res['raw_reply_ok'] = ((raw_rep == last) or (last is None) or (rejected_early and raw_rep is None)) \
+            and raw_rep in own
+        rl = conn.last_reply_len
+        res['reply_len_ok'] = rl in [0] + [len(b) for b in own if b is not None]
         if cfg and cfg['stats']:
             st = {}
             for name, s in conn.statistics.snapshot():
@@ -310,6 +329,10 @@ def compare(scn, cfg, acc):
     if not o['raw_request_ok'] or not o['raw_reply_ok']:
         acc.violation(dict(check='raw-data', what='last_raw_request/reply differ from the bytes exchanged'),
                       case, True, (o['raw_request_ok'], o['raw_reply_ok']))
+    for r_, who in ((b, 'bare:'), (o, '')):
+        if not r_.get('reply_len_ok', True):
+            acc.violation(dict(check='raw-data', what=who + 'last_reply_len is not the length of a reply of this operation'),
+                          case if not who else dict(check='observers', scenario=scn, config=None), True, False)
     if cfg['stats']:
         op = scn[0]
         st = o['stats']
@@ -374,7 +397,22 @@ def all_scenarios():
     return out
 
 
+def prior_scenarios():
+    """every scenario that can fail before a reply exists (HTTP status / transport exception / bad
+    body) and a few others, preceded by a successful operation on the same connection"""
+    out = []
+    for scn in all_scenarios():
+        if scn[2] is None and scn[1] not in ('error', 'errorinst') and scn[0] != 'GetInstance':
+            continue
+        out.append(tuple(scn[:3]) + (True,))
+    return out
+
+
 def cases(tier):
+    for scn in prior_scenarios():
+        for cfg in named_configs():
+            if cfg['logger'] is None or cfg['logger'][2] == 'all':
+                yield list(scn), cfg
     for scn in all_scenarios():
         for cfg in named_configs():
             yield list(scn), cfg
